@@ -10,9 +10,21 @@ Decided:
             on that arm), and the value persisted is the recovered one.
   MPT-C04c  record_checkpoint's header.wal_sequence store is what persist_header writes: persist_header's header
             argument is self.header, the same object record_checkpoint updated.
+  MPT-C04d  single publication point: between the success of apply_records (the replayed frames are in the in-memory
+            TOC) and record_checkpoint (the header's wal_sequence moves past them), recover_wal must not reach a
+            persist of the header: a header written in that window publishes a TOC that already contains the
+            replayed frames together with a wal_sequence that still marks their records as pending, so a process
+            crash before the second header write makes the next open replay them again (duplicate frames).
+            Interprocedural: a local callee counts if it transitively reaches persist_header / HeaderCodec::write.
 Not decided: nested crashes during recovery (crash points)."""
 from . import lib
 from .facts import op_place
+
+
+# window calls that fire the rule but were not reproduced as a state difference
+CANDIDATE_VIA = {
+    'Memvid::flush_tantivy': 'reached only when the replay inserted no frame (tombstones / lex batches); replaying those again is idempotent (a tombstone re-marks a deleted frame), not reproduced as a state difference',
+}
 
 
 def run(ctx):
@@ -61,6 +73,37 @@ def run(ctx):
                 ctx.ok('MPT-C04c', fn, 'record_checkpoint updates self.header', line=rc[0].line)
             else:
                 ctx.bad('MPT-C04c', fn, 'record_checkpoint does not update self.header', line=rc[0].line, detail='checkpoint-other-header')
+    # ---- d
+    ctx.rule('MPT-C04d', 'recover_wal: no header persist between apply_records and record_checkpoint (single publication point)')
+    if fn is not None and ar and rc:
+        sb, _ = fn.success_block(ar[0])
+        window = [c for c in fn.calls() if sb is not None and fn.dominates(sb, c.bb) and rc[0].bb in fn.reachable(c.bb) and c is not rc[0] and c.bb != rc[0].bb]
+        ctx.evaluations += len(window)
+        hits = []
+        for c in window:
+            if c.is_(('persist_header', 'HeaderCodec::write')):
+                hits.append((c, [c.key]))
+                continue
+            lc = c.local_callee
+            if lc and lc in F.fns:
+                reach = lib.reachable_fns(F, [F.fns[lc]])
+                for g in reach.values():
+                    w = [x for x in g.calls() if x.is_(('persist_header', 'HeaderCodec::write'))]
+                    if w:
+                        hits.append((c, [c.key, g.key, w[0].key]))
+                        break
+        if not window:
+            ctx.lost('MPT-C04d', 'recover_wal: no calls between apply_records and record_checkpoint (anchors moved)')
+        for c, path in hits:
+            if path[0] in CANDIDATE_VIA:
+                ctx.candidate('MPT-C04d', fn, 'header persisted between apply_records and record_checkpoint via %s: %s' % (' -> '.join(path), CANDIDATE_VIA[path[0]]), line=c.line,
+                              detail='header-persisted-before-checkpoint:' + path[0])
+                continue
+            ctx.bad('MPT-C04d', fn, 'the header is persisted between apply_records and record_checkpoint (via %s): it publishes the replayed frames with a wal_sequence that still '
+                    'marks their records pending; a crash before the final header write makes the next open replay them again' % ' -> '.join(path),
+                    line=c.line, sink=path[0], detail='header-persisted-before-checkpoint:' + path[0])
+        if window and not [h for h in hits if h[1][0] not in CANDIDATE_VIA]:
+            ctx.ok('MPT-C04d', fn, 'no header persist between apply_records and record_checkpoint', line=rc[0].line)
     ol = ctx.need('MPT-C04b', 'Memvid::open_locked')
     if ol is not None:
         ctx.touch(ol, len(ol.blocks))
